@@ -51,6 +51,8 @@ pub enum Op {
     IntoMulti,
     Transform,
     IntoIter,
+    /// harness marker: the executor probe-polls a parked task at quiescence
+    Probe,
 }
 
 impl Op {
@@ -90,6 +92,7 @@ impl Op {
             Op::IntoMulti => "into_multi",
             Op::Transform => "transform_operation",
             Op::IntoIter => "into_iter",
+            Op::Probe => "PROBE-POLL(harness)",
         }
     }
 }
@@ -286,4 +289,10 @@ pub fn dump(h: &[Event], max: usize) -> J {
         a.push(J::s(format!("... {} more events", h.len() - max)));
     }
     J::Arr(a)
+}
+
+/// harness marker event
+pub fn mark(handle: u32, stream: u32, op: Op) {
+    let t = call(handle, stream, op, 0);
+    ret(t, Res::Ok, NO_POS);
 }
